@@ -221,6 +221,11 @@ class GenerateWasmVisitor(Visitor.DefaultVisitor):
             cast(LinearIR.FunctionType, function.Type)
         )
 
+        # Every function needs an entry in the type section and in the
+        # function section; the export refers to the function by its index
+        typeIndex = ctx.Module.AddFunctionType(functionType)
+        ctx.Module.AddFunction(typeIndex)
+
         # Check if function is exported - for now assume yes
 
         c = ctx.Code
